@@ -12,20 +12,93 @@ def exec_block(E, stmts, st):
     """Execute a statement list; returns a list of Outcomes."""
     cur = [st]
     done = []
-    for stmt in stmts:
+    idx = 0
+    use = getattr(E, "block_use", None) or {}
+    while idx < len(stmts):
+        stmt = stmts[idx]
         nxt = []
-        for s1 in cur:
-            for o in E.exec_stmt(stmt, s1):
-                if o.kind == "normal":
-                    nxt.append(o.st)
-                else:
-                    done.append(o)
+        ub = use.get(id(stmt))
+        if ub is not None and [id(x) for x in stmts[idx:idx + len(ub[1])]] == [id(x) for x in ub[1]]:
+            # a verified block of this function: the caller sees its contract, not its body
+            for s1 in cur:
+                out = []
+                nxt += apply_block(E, ub[0], ub[1], s1, out, ub[2])
+                done += out
+            idx += len(ub[1])
+        else:
+            for s1 in cur:
+                for o in E.exec_stmt(stmt, s1):
+                    if o.kind == "normal":
+                        nxt.append(o.st)
+                    else:
+                        done.append(o)
+            idx += 1
         cur = nxt
         if len(cur) + len(done) > MAX_PATHS:
             raise OutOfSubset("path explosion (> %d)" % MAX_PATHS)
         if not cur:
             break
     return done + [Outcome("normal", s1) for s1 in cur]
+
+
+def apply_block(E, c, blk, st, out, hook=None):
+    """Modular use of a block contract inside the function it was extracted from: its
+    requires become goals over the current locals, the heap fields in its frame and the
+    locals the block assigns are havocked, its ensures are assumed over the new locals."""
+    node = blk[0]
+    line = getattr(node, "lineno", "?")
+    E.used_contracts.add(c.key)
+    args = {}
+    for nm, ty in c.params.items():
+        if nm not in st.env:
+            raise OutOfSubset("block %s: free variable %s is not bound at line %s" % (c.key, nm, line))
+        args[nm] = adapt(E, st.env[nm], ty) if not isinstance(ty, V) and ty != "dict" else st.env[nm]
+    h_pre = dict(st.heap)
+    pre = SpecCtx(E, st, args, h_pre)
+    pre.callee = True
+    if c.requires:
+        for nm, f in c.requires(pre):
+            E.goal(st, "block@%s:%s:pre:%s" % (line, c.key, nm), f, "call-pre", node)
+    conds = []
+    for exc, cond in c.raises:
+        ct = cond(pre)
+        conds.append(ct)
+        if is_false(ct):
+            continue
+        s_e = st.fork(); s_e.assume(ct); s_e.trace.append("%s:raise:%s" % (line, exc))
+        havoc_frame(E, c, s_e, pre, h_pre)
+        E.raise_(s_e, exc, out, node)
+    for exc in c.may_raise:
+        s_e = st.fork(); s_e.trace.append("%s:mayraise:%s" % (line, exc))
+        havoc_frame(E, c, s_e, pre, h_pre)
+        E.raise_(s_e, exc, out, node)
+    for ct in conds:
+        st.assume(z3.Not(ct))
+    havoc_frame(E, c, st, pre, h_pre)
+    types = dict(getattr(c, "local_types", None) or {})
+    types.update(getattr(c, "loop_types", None) or {})
+    types.update(getattr(c, "block_outputs", None) or {})
+    for nm in sorted(assigned_names(blk)):
+        ty = types.get(nm)
+        if ty is None and nm in c.params and not isinstance(c.params[nm], V) and c.params[nm] != "dict":
+            ty = c.params[nm]
+        if ty is None:
+            # a local of the block the contract says nothing about: an opaque value
+            st.env[nm] = VObj(z3.Const(fresh_name("blk_" + nm), PyObj))
+            continue
+        v, asm = fresh(ty, "blk_" + nm)
+        for a in asm:
+            st.assume(a)
+        st.env[nm] = v
+    post = SpecCtx(E, st, args, h_pre, res=VNone())
+    post.callee = True
+    if c.ensures:
+        for nm, f in c.ensures(post):
+            st.assume(f)
+    if hook is not None:
+        hook(post, st)      # ghost update of the enclosing contract: "this block was executed"
+    st.trace.append("%s:block:%s" % (line, c.name.split("#")[-1]))
+    return [st]
 
 
 def exec_stmt(E, n, st):
@@ -165,9 +238,23 @@ def assign(E, tgt, v, st, out, node):
                     k = None
                 if k is None:
                     # symbolic key: either one of the modelled constant keys or an entry of the custom map
+                    if isinstance(key, VStr) and isinstance(v, VStr) and "*s" in recv.mapping:
+                        # a text entry (free-text section): the string-valued constant keys, else the text map
+                        sconsts = [kk_ for kk_ in recv.mapping if not kk_.startswith("*") and E.field_type(recv.mapping[kk_]) == STR]
+                        for kk_ in sconsts:
+                            f_ = recv.mapping[kk_]
+                            old_ = z3.Select(E.heap(s1, f_), recv.ref)
+                            s1.heap[f_] = z3.Store(E.heap(s1, f_), recv.ref, z3.If(key.t == z3.StringVal(kk_), v.t, old_))
+                            s1.written.add(f_)
+                        fm = recv.mapping["*s"]
+                        oldm = z3.Select(E.heap(s1, fm), recv.ref)
+                        s1.heap[fm] = z3.Store(E.heap(s1, fm), recv.ref, z3.Store(oldm, key.t, v.t))
+                        s1.written.add(fm)
+                        res.append(s1)
+                        continue
                     if not (isinstance(key, VStr) and isinstance(v, VRef) and "*" in recv.mapping):
                         raise OutOfSubset("record store with a symbolic key")
-                    consts = [kk_ for kk_ in recv.mapping if kk_ != "*"]
+                    consts = [kk_ for kk_ in recv.mapping if not kk_.startswith("*") and E.field_type(recv.mapping[kk_]) != STR]
                     for kk_ in consts:
                         f_ = recv.mapping[kk_]
                         old_ = z3.Select(E.heap(s1, f_), recv.ref)
@@ -198,8 +285,13 @@ def assign(E, tgt, v, st, out, node):
                 if g is None:
                     raise OutOfSubset("subscript store on an opaque object (no $mutated ghost declared)")
                 s1.ghost["$mutated"] = z3.Store(g, recv.t, z3.BoolVal(True))
-                s1.ghost["$mutated_key"] = z3.Store(s1.ghost["$mutated_key"], recv.t, E.to_obj(key))
-                s1.ghost["$mutated_val"] = z3.Store(s1.ghost["$mutated_val"], recv.t, E.to_obj(v))
+                def _obj(x):
+                    try:
+                        return E.to_obj(x)
+                    except OutOfSubset:
+                        return z3.Const(fresh_name("stored"), PyObj)      # a structured value: recorded as some object
+                s1.ghost["$mutated_key"] = z3.Store(s1.ghost["$mutated_key"], recv.t, _obj(key))
+                s1.ghost["$mutated_val"] = z3.Store(s1.ghost["$mutated_val"], recv.t, _obj(v))
                 E.may_raise_any(s1, out, node, "opaque subscript store")
                 res.append(s1)
             elif isinstance(recv, VList) and isinstance(tgt.value, ast.Name) and isinstance(key, VInt) \
@@ -272,6 +364,10 @@ def feasible(E, st, cond):
 
 def st_If(E, n, st):
     out, res = [], []
+    if "KINVERARITY1_LASIO_VERIF" in (ast.get_source_segment(E.src[E.cur_module], n.test) or ""):
+        # env-guarded verification hook (add-only instrumentation): dropped, like logger calls
+        E.notes.append("dropped env-guarded hook block at %s line %d" % (E.cur_module, n.lineno))
+        return [Outcome("normal", st)]
     for s1, c in E.ev(n.test, st, out):
         cond = E.truthy(c, s1)
         brs = E.branch(s1, cond, n.lineno, "if")
@@ -1132,7 +1228,15 @@ def verify(E, c, fnode=None, body=None, module=None):
     E.cur_module = module or q.split(".")[0]
     if body is None:
         body = fnode.body
-    E.cur_loops = collect_loops(body)
+    E.block_use = {}
+    for ent in (getattr(c, "use_blocks", None) or (lambda E_: [])) (E):
+        E.block_use[id(ent[1][0])] = (ent[0], ent[1], ent[2] if len(ent) > 2 else None)
+    if E.block_use:
+        # loops inside a used block belong to that block's own proof: their ordinals are not this contract's
+        inside = {id(x) for ent in E.block_use.values() for b in ent[1] for x in ast.walk(b)}
+        E.cur_loops = [l for l in collect_loops(body) if id(l) not in inside]
+    else:
+        E.cur_loops = collect_loops(body)
     st = State()
     args = {}
     for nm, ty in c.params.items():
